@@ -5,7 +5,7 @@ Extraction Language OCaml.
 Extraction "model.ml"
   Framing.sha512_256 Framing.sha512_256i Framing.sha512_256i_tagged Framing.sha512_256i_one
   Framing.commit_with Framing.commit_verify_o Framing.decommit
-  Builder.builder_secrets Builder.parse_secrets
+  Bytes.be_value Builder.builder_secrets Builder.parse_secrets Builder.dln_unmarshal
   ZMod.powmod ZMod.modinv ZMod.go_exp GoInt.go_jacobi
   Poly.eval_poly Poly.reconstruct Poly.prepare_wi Poly.lagrange0
   Curve.secp256k1 Curve.ed25519 Curve.on_curve Curve.new_ec_point Curve.pt_add Curve.pt_neg Curve.ec_smul Curve.ec_base_mul Curve.ec_add
